@@ -23,6 +23,9 @@ def _child(conn, modname, fn, kwargs):
         t0 = time.time()
         res = getattr(mod, fn)(**kwargs)
         res.setdefault("wall_s", round(time.time() - t0, 3))
+        from . import crosscheck
+
+        res["cvc5"] = dict(crosscheck.STATS)
         conn.send(res)
     except BaseException as e:  # report everything, the parent decides
         conn.send({"status": "error", "detail": "%s: %s\n%s" % (type(e).__name__, e, traceback.format_exc()[-3000:])})
@@ -178,6 +181,7 @@ def main(argv=None):
     per_ob = []
     nontrivial = 0
     seen_viol = set()
+    cvc5_tot = {}
     n_skipped = 0
     for t, r in zip(tasks, results):
         st = r.get("status")
@@ -191,6 +195,8 @@ def main(argv=None):
         solver_s += r.get("solver_s", 0.0)
         for f in r.get("functions", []):
             functions.add(f)
+        for kk, vv in (r.get("cvc5") or {}).items():
+            cvc5_tot[kk] = cvc5_tot.get(kk, 0) + vv
         if r.get("sample") is not None and len(samples) < 12:
             samples.append({"obligation": r["id"], "case": r["sample"]})
         per_ob.append({k: r.get(k) for k in ("id", "engine", "status", "bounds", "obligations", "discharged", "paths",
@@ -257,6 +263,7 @@ def main(argv=None):
         "paths": paths,
         "solver_s": round(solver_s, 3),
         "functions_encoded": sorted(functions),
+        "second_solver_cvc5": cvc5_tot or {"checked": 0, "note": "cross-check runs in the thorough tier (or VERIF_CVC5=1)"},
         "bounds": meta.get("bounds", {}).get(a.tier, meta.get("bounds", "")),
         "outside_claim": meta.get("outside", []),
         "per_obligation": per_ob,
